@@ -129,6 +129,7 @@ class Interp:
         self.fresh = itertools.count()
         self.unsupported_log = []
         self.executed = {}                 # qualname -> FuncVal of every repository function interpreted
+        self.branches = []                 # (guard, ("join", None), loc, function) for data-dependent store-only ifs joined into selects
         self.havocs = []                   # (id, fresh symbols, loc) for opaque values stored into numeric arrays
         from . import npmodel
         self.np = npmodel.NumpyModel(self)
@@ -728,8 +729,12 @@ class Interp:
             if r is None:
                 raise Unsupported("match on symbolic subject", st)
             if r:
-                if case.guard is not None and not self.truth(self.ev(case.guard, env)):
-                    continue
+                if case.guard is not None:
+                    t = self.truth(self.ev(case.guard, env))
+                    if not isinstance(t, bool):
+                        raise Unsupported("symbolic match guard", st)
+                    if not t:
+                        continue
                 self.block(case.body, env)
                 return
 
@@ -794,11 +799,18 @@ class Interp:
         if body_exits and else_exits:
             raise Unsupported("symbolic if with two exiting branches", st)
         # store-only branches: run both on forked environments and join cellwise with select
+        self.branches.append((c, ("join", None), self.loc(st, env), self.curfunc()))
         self.join_branches(c, st, env)
 
     def run_exit_branch(self, body, env):
         """Interpret an early-exit branch on a forked env to record what it returns/raises."""
         fork = self.fork_env(env)
+        # the exit branch must not write through closure variables into state shared with the path that continues
+        for k in sorted({x.id for s_ in body for x in ast.walk(s_) if isinstance(x, ast.Name)}):
+            if k not in env.vars and k not in env.nonlocals and env.has(k):
+                v = env.lookup(k)
+                if isinstance(v, (np.ndarray, list, dict, Record)):
+                    fork.vars[k] = _fork_value(v, {})
         saved = (list(self.facts_nonzero), list(self.facts), len(self.trace), len(self.guards), len(self.divisions))
         try:
             self.block(body, fork)
@@ -831,9 +843,37 @@ class Interp:
     def join_branches(self, c, st, env):
         e1 = self.fork_env(env)
         e2 = self.fork_env(env)
+        # free variables the branches use (closure variables such as `self`, containers of the enclosing scope): each branch works on
+        # its own copy, and the copies are joined back into the shared object in place
+        used = {x.id for part in (st.body, st.orelse) for s_ in part for x in ast.walk(s_) if isinstance(x, ast.Name)}
+        free = {}
+        for k in sorted(used):
+            if k in env.vars or k in env.nonlocals or not env.has(k):
+                continue
+            v = env.lookup(k)
+            if isinstance(v, (np.ndarray, list, dict, Record)):
+                free[k] = v
+                for e_ in (e1, e2):
+                    e_.vars[k] = _fork_value(v, {})
         self.block(st.body, e1)
         self.block(st.orelse, e2)
-        names = set(e1.vars) | set(e2.vars)
+        for k, orig in free.items():
+            a, b = e1.vars.get(k), e2.vars.get(k)
+            val = self.select_value(c, a, b, orig, st)
+            if val is not orig:
+                if isinstance(val, Opaque) or type(val) is not type(orig):
+                    raise Unsupported(f"enclosing-scope variable {k} rebound or reshaped on one branch of a symbolic if", st)
+                # same kind, new object: copy the joined content into the shared object
+                if isinstance(orig, np.ndarray) and orig.shape == val.shape:
+                    orig[...] = val
+                elif isinstance(orig, list):
+                    orig[:] = val
+                elif isinstance(orig, dict):
+                    orig.clear()
+                    orig.update(val)
+                else:
+                    raise Unsupported(f"enclosing-scope variable {k} changed on one branch of a symbolic if", st)
+        names = (set(e1.vars) | set(e2.vars)) - set(free)
         for n in names:
             if n not in e1.vars or n not in e2.vars:
                 v = e1.vars.get(n, e2.vars.get(n))
@@ -868,6 +908,14 @@ class Interp:
                 orig[:] = vals
                 return orig
             return vals
+        if isinstance(a, Record) and isinstance(b, Record) and a.cls is b.cls:
+            tgt = orig if isinstance(orig, Record) else a
+            for k in sorted(set(a.attrs) | set(b.attrs), key=str):
+                if k not in a.attrs or k not in b.attrs:
+                    tgt.attrs[k] = self.opaque(f"attribute {k} set on one branch of a symbolic if", node)
+                else:
+                    tgt.attrs[k] = self.select_value(c, a.attrs[k], b.attrs[k], tgt.attrs.get(k) if tgt is not a else None, node)
+            return tgt
         if keyof(a) == keyof(b):
             return a
         return self.opaque("join of non-numeric values under a symbolic condition", node)
@@ -1039,6 +1087,8 @@ class Interp:
         if isinstance(idx, list):
             return [self.concrete_index(i, node) for i in idx]
         if isinstance(idx, np.ndarray):
+            if idx.size and all(isinstance(i, (bool, np.bool_)) for i in idx.flat):
+                return np.array([bool(i) for i in idx.flat], dtype=bool).reshape(idx.shape)   # boolean mask, not integer positions
             return np.array([self.concrete_index(i, node) for i in idx.flat], dtype=int).reshape(idx.shape)
         return idx
 
@@ -1276,6 +1326,9 @@ class Interp:
                 return True
             if name == "NotEq" and ea == eb:
                 return False
+            r = self._sign_compare(name, ea, eb)
+            if r is not None:
+                return r
             return Guard("cmp", name, ea, eb)
         try:
             if name == "Eq":
@@ -1293,6 +1346,24 @@ class Interp:
         except TypeError:
             raise RaiseSig(ExcVal("TypeError", args=(f"comparison {name} of {type(a).__name__} and {type(b).__name__}",), node=node))
         raise Unsupported(f"comparison {name}", node)
+
+    def _sign_compare(self, name, ea, eb):
+        """x <op> 0 for a monomial x of non-negative atoms with a positive coefficient: x >= 0 always; x > 0 when x is known non-zero on this path."""
+        flip = {"Lt": "Gt", "LtE": "GtE", "Gt": "Lt", "GtE": "LtE", "Eq": "Eq", "NotEq": "NotEq"}
+        if ea == ZERO and eb != ZERO:
+            ea, eb, name = eb, ea, flip[name]
+        if eb != ZERO or not ea.is_monomial():
+            return None
+        ((m, c),) = ea.t.items()
+        if not (c > 0 and m and all(a.pos for a, e_ in m)):
+            return None
+        if name == "GtE":
+            return True
+        if name == "Lt":
+            return False
+        if any(f == ea for f in self.facts_nonzero) or all(any(f == E.atom(a) for f in self.facts_nonzero) for a, e_ in m):
+            return {"Gt": True, "LtE": False, "Eq": False, "NotEq": True}[name]
+        return None
 
     def contains(self, container, item, node=None):
         if isinstance(container, Opaque):
@@ -1486,6 +1557,8 @@ class Interp:
             return SymIdx("compose", (base, idx))
         if isinstance(idx, SymIdx) and isinstance(base, (np.ndarray, SymArr)):
             return SymArr("take", (base if isinstance(base, SymArr) else base, idx))
+        if isinstance(base, MaskLoad):
+            raise Unsupported("subscript of rows selected by a data-dependent mask", n)
         if isinstance(base, SymArr):
             return SymArr("item", (base, self.concrete_index(idx, n)))
         if isinstance(base, np.ndarray):
@@ -1724,6 +1797,15 @@ def _fork_value(v, memo):
         k = id(v)
         if k not in memo:
             memo[k] = {a: _fork_value(b, memo) for a, b in v.items()}
+        return memo[k]
+    if isinstance(v, Record):
+        k = id(v)
+        if k not in memo:
+            r = Record(v.cls, {}, label=v.label)
+            memo[k] = r
+            r.native_methods = v.native_methods
+            r.attrs_files = v.attrs_files
+            r.attrs = {a: _fork_value(b, memo) for a, b in v.attrs.items()}
         return memo[k]
     return v
 
